@@ -75,7 +75,7 @@ def run(ctx):
                 'DM of either sign chosen so the band-edge delays span 0.2 .. 1.3 signal lengths, center 100 MHz..10 GHz, rates 10 kHz..400 MHz, '
                 'reference default / centre / edges / outside the band, extra sample dims, complex64/128. '
                 'non-trivial: non-zero crop; distinct by all parameters.')
-    ctx.trusted = ['Coq 8.16.1 kernel; vm_compute', 'translator T2 (dispersion literal)', 'scipy.fft = mathematical DFT (numerical validation: '
+    ctx.trusted = ['translator T5 translate/py_disp2coq.py (unit algebra: chirp phase, sample delay, crop of coherent_dedispersion; other statements pinned)', 'Coq 8.16.1 kernel; vm_compute', 'translator T2 (dispersion literal)', 'scipy.fft = mathematical DFT (numerical validation: '
                    'independent numpy complex128 filter)', 'libm cos/sin', 'astropy unit arithmetic']
     ctx.assumptions = ['chirp tolerance 1.2e-7 + 8*pi*2^-50*(|phase| + conditioning term 2 coeff f |1/fr-1/f| (1/fr+1/f)) per channel (complex64 storage + float64 phase evaluation); '
                        'cases whose band-edge delay is within 1e-9*(1+|d|) of an integer are regenerated (ceil decided by float noise)']
